@@ -132,6 +132,10 @@ var (
 	rIndex    = Rule{"NUM-INDEX", rules.NumIndex(rules.ScopeAlloc, rules.IndexResiduals, 200)}
 	rSlice    = Rule{"NUM-SLICE", rules.NumSlice(rules.ScopeSlice, rules.SliceResiduals, 15)}
 	rPanicAPI = Rule{"OWN-PANICAPI", rules.OwnPanicAPI(rules.ScopeAlloc, 5)}
+	rIdxPair  = Rule{"TAB-INDEXPAIR", rules.TabIndexPair}
+	rBounds   = Rule{"TAB-BOUNDS", rules.TabBounds}
+	rNegZero  = Rule{"ORD-NEGZERO", rules.OrdNegZero}
+	rAppAlias = Rule{"OWN-APPENDALIAS", rules.OwnAppendAlias(rules.ScopeIon, 30)}
 	rOpaque   = Rule{"TAB-OPAQUE", rules.TabOpaque}
 	rKind     = Rule{"TAB-KIND", rules.TabKind}
 	rCopyLoop = Rule{"TAB-COPYLOOP", rules.TabCopyLoop}
@@ -160,13 +164,13 @@ var registry = map[string]*Property{
 		},
 	},
 	"C02": {
-		Decided:    "The text reader's finite tables equal the Ion 1.0 text tables: every escape with its code point and digit count, \\u and \\U refused inside clobs (TAB-ESCAPE, reader obligations); the 13 null.<type> names (TAB-NULLKW, reader obligations); every token the tokenizer can hand out at the start of a value has an arm in the reader's value dispatch (TAB-TOKEN, value arms); inside {{ }} no comment-skipping whitespace routine is reachable, so base64 text containing '//' or '/*' decodes (OWN-LOBWS); no comparison treats symbol ID 0 ($0) differently from the positive IDs (TAB-SID0).",
+		Decided:    "The text reader's finite tables equal the Ion 1.0 text tables: every escape with its code point and digit count, \\u and \\U refused inside clobs (TAB-ESCAPE, reader obligations); the 13 null.<type> names (TAB-NULLKW, reader obligations); every token the tokenizer can hand out at the start of a value has an arm in the reader's value dispatch (TAB-TOKEN, value arms); inside {{ }} no comment-skipping whitespace routine is reachable, so base64 text containing '//' or '/*' decodes (OWN-LOBWS); no comparison treats symbol ID 0 ($0) differently from the positive IDs (TAB-SID0); the timestamp parser separates second precision, nanosecond precision (up to nine digits) and rounding, and valid from invalid offsets, at the indices and values the grammar prescribes (TAB-BOUNDS, text timestamp obligations).",
 		Necessary:  "An escape decoded to another code point, a null.<type> name mapped to another type, or a value-start token without a dispatch arm makes a legal spelling decode to another value or to an error.",
 		NotDecided: "number, string-segmentation, comment/whitespace and timestamp grammar (behaviour of loops over characters); $n handling",
 		Technique:  tabTech,
 		DesignRef:  "DESIGN.md §3.4, §4 C02",
 		Rules: []Rule{
-			only(rEscape, 18, whatHas("reader:")), only(rNullKW, 13, whatHas("reader:")), only(rToken, 14, whatHas("value arm")), rLobWS, rSid0,
+			only(rEscape, 18, whatHas("reader:")), only(rNullKW, 13, whatHas("reader:")), only(rToken, 14, whatHas("value arm")), rLobWS, rSid0, only(rBounds, 6, funcHas("ParseTimestamp", "computeTimezoneKind", "isIonYear")),
 		},
 	},
 	"C03": {
@@ -213,13 +217,13 @@ var registry = map[string]*Property{
 		},
 	},
 	"C07": {
-		Decided:    "The Reader error state is absorbing and every effect of a Reader method happens after 'no error yet' was established (ERR-ABSORB-R); an error obtained from the input layer is made sticky before it is returned (ERR-STICKY-R); end of input inside an open binary container is never a nil-error return (ORD-EOFDEPTH); the text reader ends a sequence in the value position only when no annotations are pending (ORD-DANGLE); in the reader files no error is discarded (ERR-DROP) and no path from a non-nil error test reaches an exit without consuming the error or returning a definitely non-nil one (ERR-SWAP).",
+		Decided:    "The Reader error state is absorbing and every effect of a Reader method happens after 'no error yet' was established (ERR-ABSORB-R); an error obtained from the input layer is made sticky before it is returned (ERR-STICKY-R); end of input inside an open binary container is never a nil-error return (ORD-EOFDEPTH); the text reader ends a sequence in the value position only when no annotations are pending (ORD-DANGLE); a negative integer with a zero magnitude is rejected whichever representation the magnitude was decoded into (ORD-NEGZERO); in the reader files no error is discarded (ERR-DROP) and no path from a non-nil error test reaches an exit without consuming the error or returning a definitely non-nil one (ERR-SWAP).",
 		Necessary:  "A Next that continues after an error, an input-layer error that never reaches Err(), a truncated container read as complete (F14, fixed), 'a::' accepted (F15, fixed) or a dropped tokenizer/bitstream error each let malformed input finish with Err()==nil or let Next resume.",
 		NotDecided: "that each grammar violation in the property's catalogue is detected by some check in the tokenizer or bitstream",
 		Technique:  ssaTech,
 		DesignRef:  "DESIGN.md §3.1, §3.5, §4 C07",
 		Rules: []Rule{
-			rAbsorbR, rStickyR, rOrdEOFDepth, rOrdDangle,
+			rAbsorbR, rStickyR, rOrdEOFDepth, rOrdDangle, rNegZero,
 			{"ERR-DROP", rules.ErrDrop(rules.ScopeReader, nil, 150)}, {"ERR-SWAP", rules.ErrSwap(rules.ScopeReader, rules.SwapSuppReader, 150)},
 		},
 	},
@@ -232,20 +236,20 @@ var registry = map[string]*Property{
 		Rules:      []Rule{rRefuse, only(rToken, 13, whatHas("skip arm")), rStepIn, rLobWS},
 	},
 	"C09": {
-		Decided:    "Every insertion into a symbol text index (buildIndex, symbolTableBuilder.Add, Build) happens only when the text is not present yet, with imports consulted before locals, or copies an existing index (ORD-FIRSTWINS); NewSymbolTokenBySID looks an ID up only after 0 <= sid <= MaxID() was established and rejects everything else (ORD-SIDBOUND); a local table resolves text through its imports before its own index on every path (ORD-IMPORTFIRST); Build neither writes to the builder nor hands the builder's own symbols/index storage to the built table (OWN-BUILD).",
+		Decided:    "Every insertion into a symbol text index (buildIndex, symbolTableBuilder.Add, Build) happens only when the text is not present yet, with imports consulted before locals, or copies an existing index (ORD-FIRSTWINS); NewSymbolTokenBySID looks an ID up only after 0 <= sid <= MaxID() was established and rejects everything else (ORD-SIDBOUND); a local table resolves text through its imports before its own index on every path (ORD-IMPORTFIRST); Build neither writes to the builder nor hands the builder's own symbols/index storage to the built table (OWN-BUILD); every table object is built with an index that describes exactly the symbols it holds (TAB-INDEXPAIR).",
 		Necessary:  "An index insert that overwrites gives the highest instead of the lowest ID for a text and lets the builder renumber a known symbol; an unchecked ID above MaxID is not rejected.",
 		NotDecided: "the offset arithmetic across imports (processImports, findByIDInImports, Adjust) — numeric; immutability of built tables is decided under C18 (OWN-IMMUT), not here, because a write that keeps the numbering (a lazily built index) does not break this property",
 		Technique:  "SSA dominance facts keyed by canonical access path (comma-ok lookup / FindByName result false before the map update)",
 		DesignRef:  "DESIGN.md §3.5, §4 C09",
-		Rules:      []Rule{rOrdFirstWins, rOrdSidBound, rImpFirst, rBuild},
+		Rules:      []Rule{rOrdFirstWins, rOrdSidBound, rImpFirst, rBuild, rIdxPair},
 	},
 	"C10": {
-		Decided:    "Every successful path of binaryReader.readBVM resets the context to the system table (ORD-BVMRESET); once a top-level struct is recognised as $ion_symbol_table every exit reports 'not a user value' or an error (ORD-LSTHIDE); the symbol table reader dereferences accessor results only under the non-null precondition, so typed nulls in imports/name/version/max_id/symbols do not crash it (NIL-ACC scoped to readlocalsymboltable.go); every Reader field that can hold a resolved token is reset per value or after every assignment of the current table, so no token outlives the table it was resolved in (OWN-TOKCACHE).",
+		Decided:    "Every successful path of binaryReader.readBVM resets the context to the system table (ORD-BVMRESET); once a top-level struct is recognised as $ion_symbol_table every exit reports 'not a user value' or an error (ORD-LSTHIDE); the symbol table reader dereferences accessor results only under the non-null precondition, so typed nulls in imports/name/version/max_id/symbols do not crash it (NIL-ACC scoped to readlocalsymboltable.go); every Reader field that can hold a resolved token is reset per value or after every assignment of the current table, so no token outlives the table it was resolved in (OWN-TOKCACHE); an import's declared max_id counts as declared from 0 upwards — only a negative or absent one falls back to the catalog (TAB-BOUNDS, readImport).",
 		Necessary:  "A version marker that keeps the old table, a table struct surfacing as a user value, or a panic on a typed null in a table slot (F8, fixed) each break resolution against the table in force.",
 		NotDecided: "append/replace semantics, catalog fallback order, max_id trimming/padding",
 		Technique:  "SSA must-pass-through and nil-fact dataflow",
 		DesignRef:  "DESIGN.md §3.2, §3.5, §4 C10",
-		Rules:      []Rule{rOrdBVMReset, rOrdLstHide, {"NIL-ACC", rules.NilAcc(rules.ScopeLST, 4)}, rTokCache},
+		Rules:      []Rule{rOrdBVMReset, rOrdLstHide, {"NIL-ACC", rules.NilAcc(rules.ScopeLST, 4)}, rTokCache, only(rBounds, 1, funcHas("readImport"))},
 	},
 	"C11": {
 		Decided:    "The field names and the annotation the symbol table writer emits are exactly those the symbol table reader dispatches on, max_id included (TAB-LSTFIELDS); the fixed/imported table is written before the first value (ORD-LSTFIRST); the builder consults imports and existing entries before defining a local symbol (ORD-FIRSTWINS); token text reaches the table lookup as it is — never through the '$n' interpretation, which would bypass a fixed table's 'not defined' error and emit an arbitrary ID (OWN-TEXTAUTH, binary writer obligations).",
@@ -253,7 +257,7 @@ var registry = map[string]*Property{
 		NotDecided: "ID arithmetic; that unknown text under a fixed table is an error (OWN-FIXEDLST not built)",
 		Technique:  tabTech + "; SSA dominance for ORD",
 		DesignRef:  "DESIGN.md §3.4, §3.5, §4 C11",
-		Rules:      []Rule{rLstFields, rOrdLstFirst, rOrdFirstWins, only(rTextAuth, 2, posHas("ion/binarywriter.go")), rImpFirst, rBuild, rWrCache},
+		Rules:      []Rule{rLstFields, rOrdLstFirst, rOrdFirstWins, only(rTextAuth, 2, posHas("ion/binarywriter.go")), rImpFirst, rBuild, rWrCache, rIdxPair},
 	},
 	"C12": {
 		Decided:    "For all 24 error-returning Writer methods on each writer implementation: the sticky error is tested before any effect on the writer (ERR-GUARD-W) and every returned error is the sticky error (ERR-STICKY-W); every value opened is closed on each success path (ORD-VALUE); Finish re-arms the binary writer before every success exit (ORD-REARM); every panicking pop on the writer-side stacks is dominated by a non-emptiness fact (ORD-POPGUARD, writer obligations); nothing in the writer implementation reachable from the Writer methods consults a time-, random- or schedule-dependent source and every map range there has an order-insensitive body (OWN-NONDET, functions outside marshal.go, fields.go and the command); an exit that refuses a call with an unrecorded UsageError (Finish away from the top level) is reached before any effect on the writer (REFUSE-PURE-W); closing a container reaches clear() before every exit that may succeed, so a pending field name or annotation never leaks to a later value (ORD-ENDCLEAR); the binary writer keeps no text-to-ID memory that outlives its symbol table builder (OWN-WRCACHE).",
@@ -266,13 +270,13 @@ var registry = map[string]*Property{
 		},
 	},
 	"C13": {
-		Decided:     "On the numeric data path of package ion (every file that carries a number, length, symbol ID, exponent or calendar field between the API and the bytes): every integer conversion that can lose value bits or the sign has an operand interval inside the target type, or is the sign-magnitude idiom, or hands its result only to a callee that rejects the wrapped values, or is one of 5 residual rows with a reason (NUM-NARROW); every left shift keeps all value bits — in particular the 7-bits-per-byte VarUInt/VarInt accumulators are checked before each shift (NUM-SHIFT, 2 residual rows: fixed-width loops); every big.Int.Int64()/Uint64() is dominated by IsInt64()/IsUint64() on the same unmodified receiver (NUM-BIG); every float64→float32 narrowing is the losslessness test or dominated by it (NUM-F32); ints and symbol IDs are written as, and read from, the unsigned-magnitude codec Ion 1.0 prescribes — never the sign-magnitude Int subfield decoder (TAB-CODEC, int and symbol obligations).",
+		Decided:     "On the numeric data path of package ion (every file that carries a number, length, symbol ID, exponent or calendar field between the API and the bytes): every integer conversion that can lose value bits or the sign has an operand interval inside the target type, or is the sign-magnitude idiom, or hands its result only to a callee that rejects the wrapped values, or is one of 5 residual rows with a reason (NUM-NARROW); every left shift keeps all value bits — in particular the 7-bits-per-byte VarUInt/VarInt accumulators are checked before each shift (NUM-SHIFT, 2 residual rows: fixed-width loops); every big.Int.Int64()/Uint64() is dominated by IsInt64()/IsUint64() on the same unmodified receiver (NUM-BIG); every float64→float32 narrowing is the losslessness test or dominated by it (NUM-F32); ints and symbol IDs are written as, and read from, the unsigned-magnitude codec Ion 1.0 prescribes — never the sign-magnitude Int subfield decoder (TAB-CODEC, int and symbol obligations); IntSize and IntValue draw the int32 boundary at exactly 2^31 and -2^31-1 (TAB-BOUNDS, accessor obligations).",
 		Necessary:   "Each rule instance is a place where Go silently wraps, truncates or rounds: uint64(negative SID) (F25, fixed), int(VarUInt >= 2^63) as a year (fixed), a 10-byte VarUInt losing its top bits (fixed), Int64() of a 70-bit coefficient (F19, fixed), float32(x) without the equality test. An unchecked instance on the data path is a number that changes without an error.",
-		NotDecided:  "that the accessors' range tests use the right bounds (IntSize/IntValue constants), the arithmetic inside each codec loop (bytes assembled in the right order), typed-null/usage-error behaviour of accessors (NIL-ACC under C06 covers the nil dereference side only); trip counts of the two fixed-width loops in ReadInt/ReadSymbolID (residual rows)",
+		NotDecided:  "the arithmetic inside each codec loop (bytes assembled in the right order), typed-null/usage-error behaviour of accessors (NIL-ACC under C06 covers the nil dereference side only); trip counts of the two fixed-width loops in ReadInt/ReadSymbolID (residual rows)",
 		Technique:   numTech,
 		DesignRef:   "DESIGN.md §3.3, §4 C13, §0.7",
 		Assumptions: []string{"int is 64 bits (linux/amd64, the analysed configuration)", "len/cap of a string or slice is at most 2^48 (runtime.maxAlloc on 64-bit platforms)", "documented result ranges of time.Time accessors, strconv.ParseInt(_, _, N), io.ReadFull, bufio.Reader.Discard, math/big.Int.BitLen"},
-		Rules:       []Rule{rNarrow, rShift, rBig, rF32, only(rCodec, 12, funcHas("ReadInt", "ReadSymbolID", "WriteInt", "WriteUint", "WriteSymbol", "writeSymbolFromID"))},
+		Rules:       []Rule{rNarrow, rShift, rBig, rF32, only(rCodec, 12, funcHas("ReadInt", "ReadSymbolID", "WriteInt", "WriteUint", "WriteSymbol", "writeSymbolFromID")), only(rBounds, 5, funcHas("IntValue", "IntSize", "ReadSymbolID"))},
 	},
 	"C14": {
 		Decided:    "Exponent arithmetic never wraps silently where this can be decided: every +, -, * and unary minus carried out in a type narrower than 64 bits (the decimal scale is an int32) has a result interval inside the type (NUM-EXP32) — Mul, ShiftL, ShiftR and ParseDecimal widen to int64, check the range and narrow; every narrowing in decimal.go has an in-range operand (NUM-NARROW, decimal.go obligations); no floating-point value takes part in Add, Sub, Mul, Neg, Abs, ShiftL, ShiftR, Cmp, Equal, Sign, Truncate, String, CoEx, ParseDecimal, NewDecimal or anything they call in the module (NUM-NOFLOAT).",
@@ -283,23 +287,23 @@ var registry = map[string]*Property{
 		Rules:      []Rule{rExp32, rNoFloat, only(rNarrow, 5, posHas("ion/decimal.go"))},
 	},
 	"C15": {
-		Decided:    "Calendar validation compares every field it hands to time.Date (which normalises month 13, day 32, hour 24, minute/second 60 instead of rejecting them) with the matching accessor of the result before every success exit, and the time value each decoded timestamp is built from has 1 <= Year() <= 9999 established — for the local time after the offset is applied, not for the UTC fields (TAB-DATEVAL); the binary timestamp layout uses the codecs Ion 1.0 prescribes on both sides — VarInt offset, VarUInt calendar fields, decimal fraction with VarInt exponent and Int coefficient (TAB-CODEC, timestamp obligations) — and timestampLen measures exactly the operands appendTimestamp appends, with the same codec, every unmeasured operand being a one-byte VarUInt by its interval (TAB-LENPAY, timestamp pair); calendar fields and fraction digits are narrowed only within range (NUM-NARROW, timestamp obligations) and the fraction rounding never extracts 64 bits from a larger big.Int (NUM-BIG); every index and slice bound the timestamp parser applies to its input string is inside the string (NUM-INDEX, NUM-SLICE, timestamp.go obligations — found F30: ParseTimestamp of 2000-01-01T00:00:00.123 panicked).",
+		Decided:    "Calendar validation compares every field it hands to time.Date (which normalises month 13, day 32, hour 24, minute/second 60 instead of rejecting them) with the matching accessor of the result before every success exit, and the time value each decoded timestamp is built from has 1 <= Year() <= 9999 established — for the local time after the offset is applied, not for the UTC fields (TAB-DATEVAL); the binary timestamp layout uses the codecs Ion 1.0 prescribes on both sides — VarInt offset, VarUInt calendar fields, decimal fraction with VarInt exponent and Int coefficient (TAB-CODEC, timestamp obligations) — and timestampLen measures exactly the operands appendTimestamp appends, with the same codec, every unmeasured operand being a one-byte VarUInt by its interval (TAB-LENPAY, timestamp pair); calendar fields and fraction digits are narrowed only within range (NUM-NARROW, timestamp obligations) and the fraction rounding never extracts 64 bits from a larger big.Int (NUM-BIG); every index and slice bound the timestamp parser applies to its input string is inside the string (NUM-INDEX, NUM-SLICE, timestamp.go obligations — found F30: ParseTimestamp of 2000-01-01T00:00:00.123 panicked); the limits of the data model are drawn where the specification draws them — offset hours below 24, minutes below 60, years 1..9999, nine fraction digits kept, calendar fields at most 10000 (TAB-BOUNDS, timestamp obligations).",
 		Necessary:  "Binary minute 60 was normalised into the next hour (F18, fixed); binary year 0, 10000, 2^31 and a wrapped 2^64-100 were accepted (fixed: 27f5dbd); a fraction coefficient measured with another codec than it is written with mis-frames every following byte (seeded C01-1/C04-1/C15-3); a 21-digit fraction decoded through Int64() of a 70-bit number (F19, fixed).",
 		NotDecided: "text formatting (layout selection, trailing zeros), staged text parsing by string position, offset arithmetic and its 24h bound, rounding direction of fractions",
 		Technique:  "SSA branch-fact dominance (equalities with time accessors, helper-predicate facts) + " + numTech + "; codec-family tables compared with Ion 1.0",
 		DesignRef:  "DESIGN.md §3.3, §3.4, §4 C15, §0.7",
 		Rules: []Rule{
 			rDateVal, only(rCodec, 14, anyOf(funcHas("imestamp", "readNsecs", "readDecimal"))), only(rLenPay, 18, funcHas("imestamp")),
-			only(rNarrow, 12, anyOf(funcHas("imestamp", "readNsecs", "readDecimal"), posHas("ion/timestamp.go"))), only(rBig, 1, funcHas("round")), only(rIndex, 20, posHas("ion/timestamp.go")), only(rSlice, 8, posHas("ion/timestamp.go")),
+			only(rNarrow, 12, anyOf(funcHas("imestamp", "readNsecs", "readDecimal"), posHas("ion/timestamp.go"))), only(rBig, 1, funcHas("round")), only(rIndex, 20, posHas("ion/timestamp.go")), only(rSlice, 8, posHas("ion/timestamp.go")), only(rBounds, 7, funcHas("imestamp", "computeTimezoneKind", "isIonYear")),
 		},
 	},
 	"C16": {
-		Decided:    "Only the determinism clause: MarshalText asks for sorted map keys and with that option encodeMap sorts the keys before emitting any field (ORD-SORTMAP); nothing reachable from Marshal*/Encoder/Writer methods consults a time-, random- or schedule-dependent source, and every map range has an order-insensitive body (OWN-NONDET); the one narrowing on the encode path, int64(v.Uint()), happens only under reflect kinds whose values fit (NUM-NARROW, marshal.go); every struct type without exported fields that the decoder recognises by identity (big.Int, Decimal, Timestamp, time.Time) is recognised by the encoder before the generic field walk (TAB-OPAQUE); every reflect.Kind the decoder accepts as a target is dispatched on by the encoder (TAB-KIND); a Go string marshalled as a symbol is written by its text, never through the '$n'-interpreting string API (OWN-TEXTAUTH, marshal obligations).",
+		Decided:    "Only the determinism clause: MarshalText asks for sorted map keys and with that option encodeMap sorts the keys before emitting any field (ORD-SORTMAP); nothing reachable from Marshal*/Encoder/Writer methods consults a time-, random- or schedule-dependent source, and every map range has an order-insensitive body (OWN-NONDET); the one narrowing on the encode path, int64(v.Uint()), happens only under reflect kinds whose values fit (NUM-NARROW, marshal.go); every struct type without exported fields that the decoder recognises by identity (big.Int, Decimal, Timestamp, time.Time) is recognised by the encoder before the generic field walk (TAB-OPAQUE); every reflect.Kind the decoder accepts as a target is dispatched on by the encoder (TAB-KIND); a Go string marshalled as a symbol is written by its text, never through the '$n'-interpreting string API (OWN-TEXTAUTH, marshal obligations); no append in the field, marshal and unmarshal code keeps results of repeated appends to one fixed base slice, so field index paths of siblings never share a backing array (OWN-APPENDALIAS).",
 		Necessary:  "Go's map iteration order is random, so an unsorted map encode or any other nondeterminism source makes MarshalText output differ between runs for the same value.",
 		NotDecided: "value equality after the round trip: field paths through embedded structs, name matching, map keys, pointer/nil handling — behaviour of reflection over caller types",
 		Technique:  "SSA dominance + call-graph reachability from the output API",
 		DesignRef:  "DESIGN.md §3.5, §3.6, §4 C16",
-		Rules:      []Rule{rOrdSortMap, rOwnNondet, only(rNarrow, 1, posHas("ion/marshal.go")), rOpaque, rKind, only(rTextAuth, 1, posHas("ion/marshal.go", "ion/unmarshal.go"))},
+		Rules:      []Rule{rOrdSortMap, rOwnNondet, only(rNarrow, 1, posHas("ion/marshal.go")), rOpaque, rKind, only(rTextAuth, 1, posHas("ion/marshal.go", "ion/unmarshal.go")), only(rAppAlias, 2, posHas("ion/fields.go", "ion/marshal.go", "ion/unmarshal.go"))},
 	},
 	"C17": {
 		Decided:    "In unmarshal.go: token text and the other nil-if-unknown pointer fields are tested before use (NIL-FIELD); accessor results are dereferenced only under the non-null precondition (NIL-ACC, NIL-ARG); Decoder.Decode/DecodeTo return the reader's error or ErrNoInput, never nil, when Next() reports no value (ORD-NOINPUT); every reflective numeric store is dominated by the matching Overflow test on the same value and operand, every signed-to-unsigned conversion by a sign test, every big.Int extraction by IsUint64 (NUM-REFLECT, NUM-NARROW, NUM-BIG in unmarshal.go).",
@@ -355,6 +359,10 @@ var devRules = map[string]Rule{
 	"OWN-INPUT":       {"OWN-INPUT", rules.OwnInput},
 	"TAB-DATEVAL":     {"TAB-DATEVAL", rules.TabDateVal},
 	"ORD-STEPIN":      {"ORD-STEPIN", rules.OrdStepIn},
+	"TAB-INDEXPAIR":   {"TAB-INDEXPAIR", rules.TabIndexPair},
+	"ORD-NEGZERO":     {"ORD-NEGZERO", rules.OrdNegZero},
+	"TAB-BOUNDS":      {"TAB-BOUNDS", rules.TabBounds},
+	"OWN-APPENDALIAS": {"OWN-APPENDALIAS", rules.OwnAppendAlias(rules.ScopeIon, 0)},
 	"OWN-PANICAPI":    {"OWN-PANICAPI", rules.OwnPanicAPI(rules.ScopeAlloc, 0)},
 	"TAB-COPYLOOP":    {"TAB-COPYLOOP", rules.TabCopyLoop},
 	"NIL-MAP":         {"NIL-MAP", rules.NilMap(rules.Scope{Name: "the module"}, 0)},
